@@ -157,6 +157,27 @@ def main():
         if ef:
             rc = max(rc, 2)
             print('CHECKER-FAILURE: term algebra self-test: ' + '; '.join(ef[:3]))
+        # ---- evaluator self-test on the fixture crate (pairs that must / must not have the same normal form)
+        try:
+            from . import fixture_selftest
+            fx_t = tempfile.mkdtemp(prefix='mcmc-fixture-')
+            try:
+                envf = dict(os.environ, MCMC_TARGET_DIR=os.path.join(fx_t, 'target'))
+                rf = subprocess.run([os.path.join(V, 'bin', 'extract.sh'), os.path.join(fx_t, 'facts.json'), os.path.join(V, 'fixtures', 'evalforms'), 'none'], capture_output=True, text=True, env=envf)
+                if rf.returncode != 0:
+                    fxf = ['fixture crate could not be analysed: ' + rf.stderr[-300:]]
+                    n_eq = n_ne = 0
+                else:
+                    n_eq, n_ne, fxf = fixture_selftest.run(os.path.join(fx_t, 'facts.json'))
+            finally:
+                shutil.rmtree(fx_t, ignore_errors=True)
+        except Exception as e:      # fail closed
+            n_eq = n_ne = 0
+            fxf = ['fixture self-test crashed: %r' % (e,)]
+        cov['fixture_selftest'] = {'equal_pairs': n_eq, 'distinct_pairs': n_ne, 'failures': fxf}
+        if fxf or n_eq < 9 or n_ne < 7:
+            rc = max(rc, 2)
+            print('CHECKER-FAILURE: evaluator fixture self-test: ' + '; '.join(fxf[:2])[:400])
         # ---- (b) self-test matrix
         patches = [(p, 'mutant') for p in sorted(glob.glob(os.path.join(V, 'selftest', 'mutants', pid + '_*.diff')))]
         patches += [(p, 'seeded') for p in sorted(glob.glob(os.path.join(V, 'seeded', pid + '_*', 'patch.diff')))]
